@@ -889,7 +889,7 @@ def replay(ctx, data):
         for site, detail in bad:
             print("replay: %s: %s" % (site, detail))
         ok = not bad
-        if not case.get("line_level"):
+        if not case.get("line_level") and sc.get("model", True):
             m = ctx.driver().ask(model_request(sc, o.trace))
             a = impl_answer(sc, o)
             print("model:", m)
